@@ -175,6 +175,16 @@ def hostile(rng, S):
             ('refl-trans', ((op(N, op(N, A)), op(P, op(P, neg(A)))), B)),
             ('several-leafworlds', ((op(P, A), op(P, B), op(P, C), op(N, op('Disjunction', A, op('Disjunction', B, C)))), op(N, A))),
         ]
+        # proofs that run up to the projected world limit: a necessarily-possibly multiplier, k extra possibility
+        # premises, and an obligation j levels deep
+        lem = op('Disjunction', C, neg(C))
+        for k in range(3):
+            for j in (1, 2, 3):
+                conc = op(P, lem)
+                for _ in range(j):
+                    conc = op(N, conc)
+                extra = tuple(op(P, syn.atom(1 + i)) for i in range(k))
+                out.append((f'world-limit:{k}:{j}', ((op(N, op(P, A)),) + extra, conc)))
         if S.quantified:
             Fa, Fb = syn.papp(F1, a), syn.papp(F1, b)
             idab = syn.papp(syn.IDENTITY, a, b)
